@@ -142,6 +142,27 @@ func main() {
 				prev = i
 			}
 		}
+		// one caller-owned *Options object reused across consecutive calls of a
+		// "ctxreuse" pair, its Context changed in between (same length)
+		for i := 0; i+1 < n; i++ {
+			if !strings.HasPrefix(cs[i].Class, "ctxreuse/") || cs[i].Class != cs[i+1].Class || cs[i].Op != cs[i+1].Op {
+				continue
+			}
+			for _, ord := range [][2]int{{i, i + 1}, {i + 1, i}} {
+				o := calls.OptionsOf(&cs[ord[0]])
+				got0 := calls.ExecuteWithOptions(&cs[ord[0]], &o)
+				second := calls.OptionsOf(&cs[ord[1]])
+				o.Context, o.Hash, o.ZIP215Verify = second.Context, second.Hash, second.ZIP215Verify
+				got1 := calls.ExecuteWithOptions(&cs[ord[1]], &o)
+				rec.Eval("seq/options-reuse")
+				rec.Nontrivial([]byte(fmt.Sprintf("optreuse/%d>%d", ord[0], ord[1])))
+				check(ord[0], got0, "sequential", -1)
+				check(ord[1], got1, "sequential(reused *Options, Context changed)", ord[0])
+				if o.Context != second.Context {
+					rec.Violate("state", "library modified the caller's Options", "state/options", map[string]interface{}{"op": "none"})
+				}
+			}
+		}
 		// a call repeated back to back (first use vs warmed state)
 		for i := 0; i < n; i++ {
 			run(i, prev, "repeat")
@@ -281,24 +302,24 @@ func main() {
 // package-level variables of the pinned tree: constant tables, test
 // switches and the exported base point.  None may change while API calls run.
 var pinnedVars = map[string]bool{
-	"curve25519.maxBignum": true,
+	"curve25519.maxBignum":            true,
 	"curve25519.maxBignum2SquaredRaw": true,
 	"curve25519.maxBignum3SquaredRaw": true,
-	"curve25519.maxBignumRaw": true,
-	"curve25519.maxBignumSquaredRaw": true,
-	"ed25519.errArgCounts": true,
-	"ed25519.order": true,
-	"ed25519.testBatchSaveY": true,
-	"ed25519.testBatchY": true,
-	"ge25519.Basepoint": true,
-	"ge25519.NielsBaseMultiples": true,
-	"ge25519.ec2d": true,
-	"ge25519.ecd": true,
-	"ge25519.nielsSlidingMultiples": true,
-	"ge25519.sqrtNeg1": true,
-	"ge25519.unalignedOk": true,
-	"x25519.Basepoint": true,
-	"x25519.basePoint": true,
+	"curve25519.maxBignumRaw":         true,
+	"curve25519.maxBignumSquaredRaw":  true,
+	"ed25519.errArgCounts":            true,
+	"ed25519.order":                   true,
+	"ed25519.testBatchSaveY":          true,
+	"ed25519.testBatchY":              true,
+	"ge25519.Basepoint":               true,
+	"ge25519.NielsBaseMultiples":      true,
+	"ge25519.ec2d":                    true,
+	"ge25519.ecd":                     true,
+	"ge25519.nielsSlidingMultiples":   true,
+	"ge25519.sqrtNeg1":                true,
+	"ge25519.unalignedOk":             true,
+	"x25519.Basepoint":                true,
+	"x25519.basePoint":                true,
 }
 
 func poolClasses(cs []calls.Call) map[string]int {
